@@ -490,7 +490,7 @@ impl RoomAuthorisations {
         }
 
         for edge in &deletion_query.edges {
-            match edge.edge.src_entity.as_str() {
+            match edge.src_name.as_str() {
                 system_entities::ROOM_ENT
                 | system_entities::AUTHORISATION_ENT
                 | system_entities::ENTITY_RIGHT_ENT
